@@ -15,6 +15,7 @@ PROPS["C08"] = dict(
         "Zrnt.Proofs.C08.afterDeposit_eq_ctxOf",
         "Zrnt.Proofs.C08.ctx_answers_eq_spec",
         "Zrnt.Proofs.C08.live_ctx_answers_eq_zrnt_ctx",
+        "Zrnt.Proofs.C08.ctx_sync_indices_eq_spec",
         "Zrnt.Proofs.C08.epochWritesB_sound",
         "Zrnt.Proofs.C08.checked_step_inEpoch",
         "Zrnt.Proofs.C08.checked_step_boundary",
@@ -39,7 +40,7 @@ PROPS["C08"] = dict(
         technique="Lean 4 proof + Go/Lean three-way differential correspondence along chains",
         design_ref="DESIGN.md 5/C08", engine="lean"),
     assumptions=[
-        "live_ctx_answers_eq_zrnt_ctx: the hash returns 32 bytes (hypothesis hH, as in C06/C07); CfgOK, SHUFFLE_ROUND_COUNT <= 255, registry <= 2^40 entries (C07's domain)",
+        "live_ctx_answers_eq_zrnt_ctx / ctx_sync_indices_eq_spec: CfgOK, SHUFFLE_ROUND_COUNT <= 255, registry <= 2^40 entries (C07's domain); sync part: an active validator of maximal effective balance in the base epoch (HasMaxBalance)",
         "MIN_SEED_LOOKAHEAD >= 1, MAX_SEED_LOOKAHEAD >= 1, EPOCHS_PER_HISTORICAL_VECTOR > MIN_SEED_LOOKAHEAD + 3 (all published presets; the chain generator's random configurations keep them)",
         "the pubkey cache is compared only on the indices of the state (it is designed to know more: C16)",
         "registries never contain the same pubkey twice (C13 genesis_pubkeys_nodup, process_deposit)",
